@@ -107,7 +107,8 @@ Definition allowed_raw : list (string * string) :=
    ("impl::decl_rep::name", "this.decl_data.master_data.overload"); (* set by Overload::push_back before the master is handed out *)
    ("impl::decl_rep::type", "this.decl_data.master_data");
    ("impl::homogeneous_scope::operator[]", "local:*");    (* the iterator of the search loop / std::find_if, within [begin, end) *)
-   ("impl::obj_list::get", "local:*")].                  (* list iterator advanced by p < size() *)
+   ("impl::obj_list::get", "local:*");                   (* list iterator advanced by p < size() *)
+   ("impl::obj_list::get", "call:next")].                (* the same written as *std::next(begin(), p) *)
 
 (* "local:*" allows any LOCAL variable of that function (the name a maintainer gives it does not matter) *)
 Definition what_matches (pattern what : string) : bool :=
